@@ -103,6 +103,7 @@ impl OutputFormat for IcyDraw {
             || buf.palette.title != default_palette.title
             || buf.palette.author != default_palette.author
             || buf.palette.description != default_palette.description
+            || buf.palette.color_iter().any(|c| c.name.is_some())
         {
             let pal_data = buf.palette.export_palette(&crate::PaletteFormat::Ice);
             let palette_data = general_purpose::STANDARD.encode(pal_data);
